@@ -337,6 +337,46 @@ pub fn run_case(id: &str, c: &LedgerCase, out: &mut String) {
     out.push_str("end\n");
 }
 
+/// A random window case in which the first superficial sale gets a user-specified superficial
+/// loss at a chosen distance from the amount the implementation itself computes (the 0.001
+/// tolerance boundary and its neighbours), without '!'.
+pub fn gen_window_boundary_case(r: &mut Rng) -> LedgerCase {
+    let mut c = gen_window_case(r, None);
+    for t in c.txs.iter_mut() {
+        if let TxActionSpecifics::Sell(s) = &mut t.action_specifics {
+            s.specified_superficial_loss = None;
+        }
+    }
+    let txs = c.txs.clone();
+    let computed: Option<(u32, Decimal)> = catch(move || txs_to_delta_list(&txs, None)).ok().and_then(|dl| {
+        dl.deltas_or_partial_deltas().iter().find_map(|d| {
+            d.sfl.as_ref().map(|s| (d.tx.read_index, *s.superficial_loss))
+        })
+    });
+    if let Some((idx, v)) = computed {
+        // the exact boundary only where the implementation's own amount is a short decimal (after
+        // 28-digit rounding noise the comparison at exactly 0.001 is decided by the noise)
+        let exact = v.normalize().scale() <= 8;
+        let deltas: &[&str] = if exact {
+            &["0", "0.001", "-0.001", "0.0011", "-0.0011", "0.0009", "-0.0009", "0.0010000001", "-0.5"]
+        } else {
+            &["0", "0.0011", "-0.0011", "0.0009", "-0.0009", "-0.5"]
+        };
+        let spec = (v + dec(*r.pick(deltas))).round_dp(10);
+        if spec <= Decimal::ZERO {
+            for t in c.txs.iter_mut() {
+                if t.read_index == idx {
+                    if let TxActionSpecifics::Sell(s) = &mut t.action_specifics {
+                        s.specified_superficial_loss =
+                            Some(SFLInput { superficial_loss: LessEqualZeroDecimal::try_from(spec).unwrap(), force: false });
+                    }
+                }
+            }
+        }
+    }
+    c
+}
+
 // ---------------------------------------------------------------------------------------
 // Replay: rebuild a case from its protocol lines (`case ...` + `tx ...`), so that a reported
 // case can be re-run against the current implementation and shrunk.
@@ -508,6 +548,18 @@ pub fn gen_window_case(r: &mut Rng, enum_idx: Option<u64>) -> LedgerCase {
         rows.push((base, 10, mk_tx(base, &seller, sell(sold, Decimal::new(30, 0), None))));
         let key = if after_in_file { 20 } else { 5 };
         rows.push((base + off, key, mk_tx(base + off, buyer, buy(Decimal::new(10, 0), Decimal::new(31, 0)))));
+    } else if r.chance(8) {
+        // a loss sale of many shares with a tiny repurchase (e.g. a reinvested dividend): the denied
+        // part of the loss is a fraction of a cent
+        rows.push((base - 390, 0, mk_tx(base - 390, &seller, buy(Decimal::new(1400, 0), Decimal::new(50, 0)))));
+        let px = Decimal::new(5000 - r.range(1, 12), 2);
+        rows.push((base, 10, mk_tx(base, &seller, sell(Decimal::new(1000, 0), px, None))));
+        for _ in 0..(1 + r.below(2)) {
+            let off = *r.pick(&[-29, -10, -1, 1, 10, 30]);
+            let buyer = if r.chance(70) { seller.clone() } else { affs[1].clone() };
+            let tiny = Decimal::new(r.range(1, 300), 3);
+            rows.push((base + off, 10 + if off < 0 { -5 } else { 5 }, mk_tx(base + off, &buyer, buy(tiny, Decimal::new(r.range(4000, 5000), 2)))));
+        }
     } else {
         let n_sales = 1 + r.below(3) as i32;
         let mut day = base;
